@@ -540,6 +540,12 @@ func newRules(rules []rule) (Rules, error) {
 				if err != nil {
 					return nil, err
 				}
+				if len(rule) == 1 && rule[0].comment != "" {
+					// The inline comment of a rule made of its sole keyword
+					if b, ok := r.(interface{ setComment(string) }); ok {
+						b.setComment(rule[0].comment)
+					}
+				}
 				if owner && r.Kind() == LINK {
 					r.(*Link).Owner = owner
 				}
